@@ -450,4 +450,62 @@ mod verif_c17 {
         kani::cover!(op == 1 && want == p0);
         std::mem::forget(w);
     }
+
+    // ---------------------------------------------------------------- write_all / write! through the adaptor
+    /// a sink that follows a fixed plan: accept plan[k] bytes at call k (0 = fail with a hard error)
+    struct PlanSink {
+        plan: [usize; 3],
+        calls: usize,
+        accepted: usize,
+    }
+    impl Write for PlanSink {
+        fn write(&mut self, buf: &[u8]) -> io::Result<usize> {
+            let k = self.calls;
+            self.calls += 1;
+            let want = if k < 3 { self.plan[k] } else { 0 };
+            if want == 0 {
+                return Err(io::Error::from(io::ErrorKind::BrokenPipe));
+            }
+            let n = if want < buf.len() { want } else { buf.len() };
+            self.accepted += n;
+            Ok(n)
+        }
+        fn flush(&mut self) -> io::Result<()> {
+            Ok(())
+        }
+    }
+
+    /// the plan is concrete per harness (an io::Error whose existence is symbolic makes its drop glue explode under CBMC); the start
+    /// position is symbolic
+    fn write_all_plan(plan: [usize; 3], ok: bool) {
+        let p0: u64 = kani::any();
+        let mut w = ProgressBarIter { it: PlanSink { plan, calls: 0, accepted: 0 }, progress: bar(p0, ProgressFinish::AndLeave) };
+        let r = w.write_all(&[1u8, 2, 3]);
+        assert!(r.is_ok() == ok);
+        std::mem::forget(r);
+        // every byte the sink accepted is counted -- also when a later write of the same write_all fails
+        assert!(pos_of(&w.progress) == p0.wrapping_add(w.it.accepted as u64));
+        kani::cover!(p0 == u64::MAX);
+        std::mem::forget(w);
+    }
+
+    // @harness id=C17 tier=quick timeout=1800 mem=12
+    // @bounds write_all of 3 bytes to a sink that accepts 1 byte and then fails hard: the error comes back and the position advanced by the 1 byte that was accepted
+    #[kani::proof]
+    #[kani::unwind(6)]
+    #[kani::stub(crate::state::AtomicPosition::allow, never_allow)]
+    //@STUBS std now noterm nomulti norender rlany noweight
+    fn c17_write_all_counts_accepted_bytes_on_error() {
+        write_all_plan([1, 0, 0], false);
+    }
+
+    // @harness id=C17 tier=quick timeout=1800 mem=12
+    // @bounds write_all of 3 bytes to a sink that accepts 2 bytes, then 1: Ok, position += 3
+    #[kani::proof]
+    #[kani::unwind(6)]
+    #[kani::stub(crate::state::AtomicPosition::allow, never_allow)]
+    //@STUBS std now noterm nomulti norender rlany noweight
+    fn c17_write_all_short_writes_complete() {
+        write_all_plan([2, 1, 0], true);
+    }
 }
